@@ -375,7 +375,8 @@ def apply_edit(f, op):
               http_version, content (raw), status_code, reason, timestamp_start, timestamp_end (resp has the
               response subset); ["req_headers", [[n,v]..]] ["resp_headers", ..] ["req_hadd", n, v] ["resp_hadd", n, v]
             ["req_hdel", i] ["resp_hdel", i]   (i modulo number of fields) ["req_trailers", None|[[n,v]]]
-            ["resp_trailers", ..] ["resp_none"] ["resp_new", RESPDESC] ["ws_none"] ["ws_new", WSDESC]
+            ["resp_trailers", ..] ["req_tadd", n, v] ["resp_tadd", n, v] ["req_hadd_inplace", n, v] ["resp_hadd_inplace", n, v]
+              (Headers.add on the existing trailers / headers object) ["resp_none"] ["resp_new", RESPDESC] ["ws_none"] ["ws_new", WSDESC]
             ["ws_close", closed_by_client, code, reason, ts]
     messages (websocket / tcp / udp): ["msg_content", i, bytes] ["msg_del", i] ["msg_add", MSG] ["msg_flip", i]
             ["msg_drop", i] (websocket only)
@@ -440,6 +441,15 @@ def apply_edit(f, op):
                         m.headers.fields = tuple(fl)
                 else:
                     m.trailers = _hdrs(op[1])
+    elif k in ("req_tadd", "resp_tadd", "req_hadd_inplace", "resp_hadd_inplace"):
+        # in-place mutation of the existing Headers object (trailers / headers), e.g. trailers["x"] = "y" on a
+        # present-but-empty Headers(); no-op while the trailers are None
+        if isinstance(f, http.HTTPFlow):
+            m = f.request if k.startswith("req") else f.response
+            if m is not None:
+                h = m.trailers if k.endswith("tadd") else m.headers
+                if h is not None:
+                    h.add(bytes(op[1]).decode("latin-1"), bytes(op[2]).decode("latin-1"))
     elif k == "resp_none":
         if isinstance(f, http.HTTPFlow):
             f.response = None
@@ -698,6 +708,9 @@ def edits(kind, small=True):
         st.tuples(st.sampled_from(["req_hadd", "resp_hadd"]), hname, hval),
         st.tuples(st.sampled_from(["req_hdel", "resp_hdel"]), st.integers(0, 5)),
         st.tuples(st.sampled_from(["req_trailers", "resp_trailers"]), st.none() | headers),
+        st.tuples(st.sampled_from(["req_trailers", "resp_trailers"]), st.just([])),
+        st.tuples(st.sampled_from(["req_tadd", "resp_tadd", "req_hadd_inplace", "resp_hadd_inplace"]),
+                  st.sampled_from([b"x-t", b"X-A", b"t"]), st.sampled_from([b"y", b"", b"1"])),
         st.tuples(st.just("resp_none")), st.tuples(st.just("resp_new"), response(True)),
     ]
     ws_ops = [st.tuples(st.just("ws_none")), st.tuples(st.just("ws_new"), websocket(True)),
